@@ -19,6 +19,7 @@ type c05Input struct {
 	Scenario c05Scenario `json:"scenario"`
 	Text     string      `json:"text"`
 	Schedule []int       `json:"schedule"` // sqlite: client that moves at each step; http: choice index at each quiescent point
+	Preempt  *c05Preempt `json:"preempt,omitempty"` // sqlite statement-level modes
 	Trace    []string    `json:"trace,omitempty"`
 	History  string      `json:"history,omitempty"`
 }
@@ -44,8 +45,10 @@ func (r *c05Run) violation(cat string, in c05Input, format string, a ...any) {
 }
 
 // evaluate applies the oracle to one execution.
-func (r *c05Run) evaluate(sc c05Scenario, schedule []int, ex *c05Exec) {
-	in := c05Input{Scenario: sc, Text: sc.String(), Schedule: schedule, Trace: ex.Trace, History: c05HistString(ex.Hist)}
+func (r *c05Run) evaluate(sc c05Scenario, schedule []int, ex *c05Exec) { r.evaluateP(sc, schedule, nil, ex) }
+
+func (r *c05Run) evaluateP(sc c05Scenario, schedule []int, pre *c05Preempt, ex *c05Exec) {
+	in := c05Input{Scenario: sc, Text: sc.String(), Schedule: schedule, Preempt: pre, Trace: ex.Trace, History: c05HistString(ex.Hist)}
 	if in.Schedule == nil {
 		in.Schedule = []int{}
 	}
@@ -148,15 +151,41 @@ func (r *c05Run) runScenario(sc c05Scenario) (bool, error) {
 		for i, p := range sc.Progs {
 			lens[i] = len(p)
 		}
+		stmtLevel := sc.Mode == "stmt" || sc.Mode == "procstmt"
 		for _, order := range c05Interleavings(lens) {
 			if r.rp.Expired() {
 				return false, nil
 			}
-			ex, err := e.runSeq(sc, order)
-			if err != nil {
-				return false, err
+			if !stmtLevel {
+				ex, err := e.runSeq(sc, order, nil)
+				if err != nil {
+					return false, err
+				}
+				r.evaluate(sc, order, ex)
+				continue
 			}
-			r.evaluate(sc, order, ex)
+			// statement level: for every operation that is followed in the order by
+			// an operation of another client, let that whole operation run right
+			// before the first, second, ... SQL statement of the former
+			for pos := 0; pos+1 < len(order); pos++ {
+				if order[pos] == order[pos+1] {
+					continue
+				}
+				for k := 1; k <= 16; k++ {
+					pre := &c05Preempt{Pos: pos, K: k}
+					ex, err := e.runSeq(sc, order, pre)
+					if err != nil {
+						return false, err
+					}
+					if !ex.Fired {
+						// the operation has fewer than k statements (or could not be issued)
+						r.rp.Add("statement_preemption_probes_beyond_last_statement", 1)
+						break
+					}
+					r.rp.Add("statement_preemptions_k"+fmt.Sprint(k), 1)
+					r.evaluateP(sc, order, pre, ex)
+				}
+			}
 		}
 	default:
 		e, err := r.httpEnv(sc.Backend)
@@ -218,11 +247,11 @@ func (r *c05Run) replay(rf *verifmc.ReplayFile) error {
 		if err != nil {
 			return err
 		}
-		ex, err := e.runSeq(sc, in.Schedule)
+		ex, err := e.runSeq(sc, in.Schedule, in.Preempt)
 		if err != nil {
 			return err
 		}
-		r.evaluate(sc, in.Schedule, ex)
+		r.evaluateP(sc, in.Schedule, in.Preempt, ex)
 	default:
 		e, err := r.httpEnv(sc.Backend)
 		if err != nil {
@@ -251,6 +280,12 @@ func c05Plan(thorough bool) []c05Scenario {
 			if limit > 0 && i >= limit {
 				break
 			}
+			// quick: the slow cross-process variants with reopen / statement-level
+			// preemption only up to 3 operations (the 2 x 2 programs run in the
+			// in-process modes and in plain "proc")
+			if !thorough && (sc.Mode == "procstmt" || sc.Mode == "procreopen") && sc.nops() > 3 {
+				continue
+			}
 			sc.Faults = faults
 			plan = append(plan, sc)
 		}
@@ -262,23 +297,51 @@ func c05Plan(thorough bool) []c05Scenario {
 		if !thorough && mode != "shared" {
 			offs = []int{0, 2}
 		}
-		add(c05Scenarios("sqlite", mode, 1, 2, offs, false), 0, 0)
-		add(c05Scenarios("sqlite", mode, 2, 2, offs, false), 0, 0)
-		add(c05Scenarios("sqlite", mode, 2, 2, []int{1}, true), 0, 0)
+		add(c05Scenarios("sqlite", mode, 1, 2, offs, "rot"), 0, 0)
+		add(c05Scenarios("sqlite", mode, 2, 2, offs, "rot"), 0, 0)
+		add(c05Scenarios("sqlite", mode, 2, 2, []int{1}, "same"), 0, 0)
 		if thorough {
-			add(c05Scenarios("sqlite", mode, 3, 2, []int{0, 2}, false), 0, 0)
+			add(c05Scenarios("sqlite", mode, 3, 2, []int{0, 2}, "rot"), 0, 0)
 		} else {
-			add(c05Scenarios("sqlite", mode, 3, 1, []int{0}, false), 0, 0)
+			add(c05Scenarios("sqlite", mode, 3, 1, []int{0}, "rot"), 0, 0)
+		}
+	}
+	// --- same new value written by several clients / recurring values (all in-process modes)
+	for _, mode := range []string{"shared", "perconn", "reopen"} {
+		offs := []int{1}
+		if thorough {
+			offs = all
+		}
+		for _, assign := range []string{"dupnew", "aba"} {
+			add(c05Scenarios("sqlite", mode, 2, 2, offs, assign), 0, 0)
+			if thorough {
+				add(c05Scenarios("sqlite", mode, 3, 1, offs, assign), 0, 0)
+			}
+		}
+	}
+	// --- SQLite, statement granularity: another connection's / process' whole
+	// operation between any two SQL statements of an operation
+	for _, mode := range []string{"stmt", "procstmt"} {
+		offs := []int{1}
+		if thorough {
+			offs = all
+		}
+		add(c05Scenarios("sqlite", mode, 2, 2, offs, "rot"), 0, 0)
+		if thorough {
+			add(c05Scenarios("sqlite", mode, 2, 2, []int{0, 1}, "dupnew"), 0, 0)
 		}
 	}
 	// --- SQLite, operations executed by separate processes
 	for _, mode := range []string{"proc", "procreopen"} {
 		if thorough {
-			add(c05Scenarios("sqlite", mode, 2, 2, all, false), 0, 0)
-			add(c05Scenarios("sqlite", mode, 3, 2, []int{1}, false), 0, 0)
+			add(c05Scenarios("sqlite", mode, 2, 2, all, "rot"), 0, 0)
+			add(c05Scenarios("sqlite", mode, 3, 2, []int{1}, "rot"), 0, 0)
 		} else {
-			add(c05Scenarios("sqlite", mode, 2, 2, []int{0}, false), 0, 0)
-			add(c05Scenarios("sqlite", mode, 3, 1, []int{2}, false), 0, 0)
+			add(c05Scenarios("sqlite", mode, 2, 2, []int{0}, "rot"), 0, 0)
+			add(c05Scenarios("sqlite", mode, 3, 1, []int{2}, "rot"), 0, 0)
+		}
+		if mode == "proc" {
+			add(c05Scenarios("sqlite", mode, 2, 2, []int{1}, "dupnew"), 0, 0)
 		}
 	}
 	// --- SQLite, genuinely concurrent (supporting evidence)
@@ -288,38 +351,56 @@ func c05Plan(thorough bool) []c05Scenario {
 			reps = 5
 		}
 		for i := 0; i < reps; i++ {
-			add(c05Scenarios("sqlite", mode, 3, 2, []int{i % 4}, false), 0, 120*(1+4*btoi(thorough)))
+			add(c05Scenarios("sqlite", mode, 3, 2, []int{i % 4}, "rot"), 0, 120*(1+4*btoi(thorough)))
 		}
 	}
 	// --- DynamoDB and ETag/S3: request granularity with lost responses
 	for _, be := range []string{"dynamodb", "etag"} {
 		if thorough {
-			add(c05Scenarios(be, "park", 1, 2, all, false), 2, 0)
-			add(c05Scenarios(be, "park", 2, 2, all, false), 2, 0)
-			add(c05Scenarios(be, "park", 2, 2, []int{1}, true), 1, 0)
-			add(c05Scenarios(be, "park", 3, 1, all, false), 2, 0)
+			add(c05Scenarios(be, "park", 1, 2, all, "rot"), 2, 0)
+			add(c05Scenarios(be, "park", 2, 2, all, "rot"), 2, 0)
+			add(c05Scenarios(be, "park", 2, 2, []int{1}, "same"), 1, 0)
+			add(c05Scenarios(be, "park", 3, 1, all, "rot"), 2, 0)
 			// three clients x two operations: every interleaving without
 			// faults, and one injected failure where there are <= 4 operations
 			var small []c05Scenario
-			for _, sc := range c05Scenarios(be, "park", 3, 2, []int{0}, false) {
+			for _, sc := range c05Scenarios(be, "park", 3, 2, []int{0}, "rot") {
 				if sc.nops() <= 4 {
 					small = append(small, sc)
 				}
 			}
 			add(small, 1, 0)
-			add(c05Scenarios(be, "park", 3, 2, []int{1}, false), 0, 0)
+			add(c05Scenarios(be, "park", 3, 2, []int{1}, "rot"), 0, 0)
 		} else {
-			add(c05Scenarios(be, "park", 1, 2, []int{0, 2}, false), 1, 0)
+			add(c05Scenarios(be, "park", 1, 2, []int{0, 2}, "rot"), 1, 0)
 			// two clients: one injected failure where there are <= 3 operations,
 			// all interleavings without failures for 2 x 2
-			for _, sc := range c05Scenarios(be, "park", 2, 2, []int{0}, false) {
+			for _, sc := range c05Scenarios(be, "park", 2, 2, []int{0}, "rot") {
 				if sc.nops() <= 3 {
 					add([]c05Scenario{sc}, 1, 0)
 				} else {
 					add([]c05Scenario{sc}, 0, 0)
 				}
 			}
-			add(c05Scenarios(be, "park", 3, 1, []int{3}, false), 1, 0)
+			add(c05Scenarios(be, "park", 3, 1, []int{3}, "rot"), 1, 0)
+		}
+	}
+	// --- DynamoDB / ETag: several clients writing byte-identical new values and
+	// recurring values. No injected failures here: a conditional write that the
+	// SDK retries after a lost response is value-based and can be applied a
+	// second time if the old value has come back in the meantime (X -> Y -> X);
+	// checkpoints never recur (size and timestamp grow), so that combination is
+	// outside the property.
+	for _, be := range []string{"dynamodb", "etag"} {
+		offs := []int{1}
+		if thorough {
+			offs = all
+		}
+		for _, assign := range []string{"dupnew", "aba"} {
+			add(c05Scenarios(be, "park", 2, 2, offs, assign), 0, 0)
+			if thorough {
+				add(c05Scenarios(be, "park", 3, 1, offs, assign), 0, 0)
+			}
 		}
 	}
 	// simplest first across all backends, so that a time cap cuts every
@@ -375,7 +456,7 @@ func TestVerifC05(t *testing.T) {
 	if err := c05FakeSelfTest(); err != nil {
 		fail(err)
 	}
-	rp.Note("oracle_selftests", "linearizability checker (12 hand-made histories), direct rules, S3 fake (11 steps), DynamoDB fake (11 steps): passed")
+	rp.Note("oracle_selftests", "linearizability checker (13 hand-made histories), direct rules, S3 fake (11 steps), DynamoDB fake (12 steps): passed")
 	plan := c05Plan(rp.Thorough())
 	rp.Add("scenarios_planned", 0)
 	done, skipped := 0, 0
